@@ -7,11 +7,11 @@ BREAKING = [
     ('window shifted by one', T, "    a = nsw // 2\n    b = nsw - a", "    a = nsw // 2 + 1\n    b = nsw - a", ['C03.S1']),
     ('window end at sample', T, "    t0, t1 = sample - a, sample + b", "    t0, t1 = sample - a, sample + a", ['C03.S1']),
     ('window centred with ceil', T, "    a = nsw // 2\n    b = nsw - a", "    a = nsw - nsw // 2\n    b = nsw - a", ['C03.S1']),
-    ('pad on wrong side (start)', T, "        w = np.vstack((np.zeros((nsw - w.shape[0], n_channels), dtype=w.dtype), w))", "        w = np.vstack((w, np.zeros((nsw - w.shape[0], n_channels), dtype=w.dtype)))", ['C03.S1']),
+    ('pad on wrong side (start)', T, "        w = np.vstack((np.zeros((-t0, n_channels), dtype=w.dtype), w))", "        w = np.vstack((w, np.zeros((-t0, n_channels), dtype=w.dtype)))", ['C03.S1']),
     ('pad on wrong side (end)', T, "        w = np.vstack((w, np.zeros((nsw - w.shape[0], n_channels), dtype=w.dtype)))", "        w = np.vstack((np.zeros((nsw - w.shape[0], n_channels), dtype=w.dtype), w))", ['C03.S1']),
     ('no clamp at start', T, "    w = traces[max(0, t0):t1][:, channel_ids]", "    w = traces[t0:t1][:, channel_ids]", ['C03.S1']),
     ('end padding dropped', T, "    if t1 > dur:\n        w = np.vstack((w, np.zeros((nsw - w.shape[0], n_channels), dtype=w.dtype)))\n", "", ['C03.S1']),
-    ('pad rows wrong', T, "        w = np.vstack((np.zeros((nsw - w.shape[0], n_channels), dtype=w.dtype), w))", "        w = np.vstack((np.zeros((a, n_channels), dtype=w.dtype), w))", ['C03.S1']),
+    ('pad rows wrong', T, "        w = np.vstack((np.zeros((-t0, n_channels), dtype=w.dtype), w))", "        w = np.vstack((np.zeros((a, n_channels), dtype=w.dtype), w))", ['C03.S1']),
     ('end test non strict on wrong bound', T, "    if t1 > dur:", "    if t1 > dur + 1:", ['C03.S1']),
     ('-1 channels not zeroed', T, "    if not isinstance(channel_ids, slice):\n        w[:, np.asarray(channel_ids) == -1] = 0\n", "", ['C03.S1', 'C03.Y3']),
     ('spike in two chunks', T, "        ind = _find_chunks([i0, i1], spike_samples) == 0", "        ind = _find_chunks([i0, i1], spike_samples) >= 0", ['C03.S2']),
@@ -40,3 +40,4 @@ EQUIVALENT = [
 BREAKING.append(('F20 reverted: unit factor applied in the sample dtype', 'phylib/io/traces.py', '        writer.append(waveforms.astype(dtype) * sample2unit)', '        writer.append(waveforms * sample2unit)', ['C03.Y4']))
 EQUIVALENT.append(('unit factor as float', 'phylib/io/traces.py', '        writer.append(waveforms.astype(dtype) * sample2unit)', '        writer.append(waveforms * float(sample2unit))'))
 BREAKING.append(('store position tables memoised on the set of common channels', 'phylib/io/traces.py', "        if len(channel_ids) > 0:\n            cols0 = _index_of(channel_common, channel_ids)\n            cols1 = _index_of(channel_common, ind)\n            assert len(cols0) == len(cols1)\n            out[i, :, cols0] = spike_waveforms.waveforms[sid, :, cols1]", "        if prev is None or not np.array_equal(channel_common, prev):\n            prev = channel_common\n            cols0 = _index_of(channel_common, channel_ids)\n            cols1 = _index_of(channel_common, ind)\n        out[i, :, cols0] = spike_waveforms.waveforms[sid, :, cols1]", ['C03.A1']))
+BREAKING.append(('F21 reverted: all missing rows stacked before the data', 'phylib/io/traces.py', "        w = np.vstack((np.zeros((-t0, n_channels), dtype=w.dtype), w))", "        w = np.vstack((np.zeros((nsw - w.shape[0], n_channels), dtype=w.dtype), w))", ['C03.S1']))
